@@ -48,7 +48,8 @@ def main(argv):
         for p in ps:
             faults = M.single_faults(base, p)
             if not per_path_all:
-                faults = rng.sample(faults, min(len(faults), 3))
+                hostile = [f for f in faults if f[0].startswith('hostile-str')]
+                faults = rng.sample(faults, min(len(faults), 3)) + ([rng.choice(hostile)] if hostile else [])
             for desc, d in faults:
                 docs.append((f'single:{desc.split(":")[0]}', d))
         for _ in range(100 if tier == 'quick' else 400):   # 2-3 faults
